@@ -7,7 +7,7 @@ PATCH="$1"; shift
 HERE=$(cd "$(dirname "$0")/.." && pwd)
 if ! git -C /repo diff --quiet; then echo "refusing: /repo has uncommitted changes" >&2; exit 2; fi
 git -C /repo apply "$PATCH" || { echo "patch does not apply" >&2; exit 2; }
-trap 'git -C /repo checkout -- . ; git -C "$HERE" checkout -- evidence 2>/dev/null' EXIT
+trap 'git -C /repo checkout -- . ; git -C /repo clean -fdq src tests ; git -C "$HERE" checkout -- evidence 2>/dev/null' EXIT
 for ID in "$@"; do
     OUT=$("$HERE/check" "$ID" --tier quick 2>&1)
     RC=$?
